@@ -568,7 +568,7 @@ def _line_indexing(repo, chk):
                     why = EXEMPT.get((rel, fn.name))
                     chk.expect(guarded or why is not None, 'C10.X7', f'{rel}::{fn.name}::{src(n)}',
                                why or 'the line list is indexed without a non-emptiness test: a zero-byte source raises IndexError', rel, n.lineno)
-    chk.floor('line-list index sites', n_sites, 2)
+    chk.floor('line-list index sites', n_sites, 1)
 
 
 def _labels_defined(repo, chk, gf):
@@ -657,7 +657,7 @@ def _labels_defined(repo, chk, gf):
                              f'with {conds}: the output names an undefined label', GEN, used[0].line)
         if not any(k.startswith(f'{fname}::') for k in seen):
             chk.ok('C10.X8', fname, 'every referenced label is defined once on every path')
-    chk.floor('label instances on paths', n_labels, 100)
+    chk.floor('label instances on paths', n_labels, 60)
 
 
 def _span_like(n):
